@@ -5,9 +5,9 @@ namespace IV.Dr
 variable (r : Rel) (G : List Comp)
 
 /-- reachable from `k` through dependency/dependent edges inside the graph -/
-inductive Reach (k : Comp) : Comp → Prop
-  | refl : Reach k k
-  | step {x y : Comp} : Reach k x → y ∈ nbrs r G x → Reach k y
+inductive SgReach (k : Comp) : Comp → Prop
+  | refl : SgReach k k
+  | step {x y : Comp} : SgReach k x → y ∈ nbrs r G x → SgReach k y
 
 /-- a set of components closed under "neighbour inside the graph" -/
 def Closed (s : List Comp) : Prop := ∀ x ∈ s, ∀ y ∈ nbrs r G x, y ∈ s
@@ -39,12 +39,12 @@ structure Inv (k : Comp) (fr seen : List Comp) : Prop where
   frG : ∀ x ∈ fr, x ∈ G ∧ x ∉ seen
   seenG : ∀ x ∈ seen, x ∈ G
   border : ∀ x ∈ seen, ∀ y ∈ nbrs r G x, y ∈ seen ∨ y ∈ fr
-  reach : ∀ x, x ∈ seen ∨ x ∈ fr → Reach r G k x
+  reach : ∀ x, x ∈ seen ∨ x ∈ fr → SgReach r G k x
 
 theorem close_spec (k : Comp) : ∀ (f : Nat) (fr seen : List Comp), Inv r G k fr seen → unseen G seen < f →
     Closed r G (close r G f fr seen) ∧ (∀ x ∈ seen, x ∈ close r G f fr seen) ∧
     (∀ x ∈ fr, x ∈ close r G f fr seen) ∧
-    (∀ x ∈ close r G f fr seen, Reach r G k x ∧ x ∈ G) := by
+    (∀ x ∈ close r G f fr seen, SgReach r G k x ∧ x ∈ G) := by
   intro f
   induction f with
   | zero => intro fr seen _ h; omega
@@ -96,7 +96,7 @@ theorem close_spec (k : Comp) : ∀ (f : Nat) (fr seen : List Comp), Inv r G k f
           · rw [List.mem_filter] at hx
             rcases List.mem_append.mp hx.1 with h | h
             · exact hinv.reach x (Or.inr (by simp [h]))
-            · exact Reach.step (hinv.reach c (Or.inr (by simp))) h
+            · exact SgReach.step (hinv.reach c (Or.inr (by simp))) h
       obtain ⟨h1, h2, h3, h4⟩ := ih _ _ hinv' (by omega)
       refine ⟨h1, fun x hx => h2 x (by simp [hx]), ?_, h4⟩
       intro x hx
@@ -112,12 +112,12 @@ theorem unseen_le (seen : List Comp) : unseen G seen ≤ G.length := by
 /-- one round: the closure of `{k}` is closed, contains `k`, and is exactly what is reachable from `k` -/
 theorem round_spec (k : Comp) (hk : k ∈ G) :
     let s := close r G (G.length + 1) [k] []
-    Closed r G s ∧ k ∈ s ∧ ∀ x ∈ s, Reach r G k x ∧ x ∈ G := by
+    Closed r G s ∧ k ∈ s ∧ ∀ x ∈ s, SgReach r G k x ∧ x ∈ G := by
   intro s
   have hinv : Inv r G k [k] [] := ⟨by simp [hk], by simp, by simp, by
     intro x hx; rcases hx with h | h
     · simp at h
-    · simp at h; rw [h]; exact Reach.refl⟩
+    · simp at h; rw [h]; exact SgReach.refl⟩
   obtain ⟨h1, _, h3, h4⟩ := close_spec r G k (G.length + 1) [k] [] hinv (by have := unseen_le G []; omega)
   exact ⟨h1, h3 k (by simp), h4⟩
 
@@ -135,7 +135,7 @@ theorem nbrs_symm (hs : Symmetric r G) (x y : Comp) (hx : x ∈ G) (h : y ∈ nb
 
 /-- a closed set that contains something reachable from `k` contains `k` -/
 theorem closed_back (hs : Symmetric r G) (s : List Comp) (hc : Closed r G s) (k : Comp) (hk : k ∈ G) :
-    ∀ x, Reach r G k x → x ∈ s → k ∈ s := by
+    ∀ x, SgReach r G k x → x ∈ s → k ∈ s := by
   intro x hr
   induction hr with
   | refl => exact id
@@ -158,7 +158,7 @@ theorem filter_length_le' (l : List Comp) (p : Comp → Bool) : (l.filter p).len
 theorem subgraphs_spec (hs : Symmetric r G) : ∀ (f : Nat) (ks : List Comp), ks.length ≤ f → (∀ k ∈ ks, k ∈ G) →
     (∀ k ∈ ks, ∃ s ∈ subgraphs r G f ks, k ∈ s) ∧
     (subgraphs r G f ks).Pairwise (fun a b => ∀ x ∈ a, x ∉ b) ∧
-    (∀ s ∈ subgraphs r G f ks, Closed r G s ∧ (∀ x ∈ s, x ∈ G) ∧ ∃ k ∈ ks, k ∈ s ∧ ∀ x ∈ s, Reach r G k x) := by
+    (∀ s ∈ subgraphs r G f ks, Closed r G s ∧ (∀ x ∈ s, x ∈ G) ∧ ∃ k ∈ ks, k ∈ s ∧ ∀ x ∈ s, SgReach r G k x) := by
   intro f
   induction f with
   | zero =>
